@@ -667,6 +667,11 @@ pub fn plan(tier: &str) -> Plan {
             4,
         ));
     }
+    // the holder exits slowly (post_stop takes a while), late drain / stop requests keep arriving, a successor
+    // takes the name in the meantime and must keep it
+    for drain in [false, true] {
+        units.push(Unit::explore_split(Job::new(format!("live/slow-exit+late-requests/{}", if drain { "drain" } else { "stop" }), ExecCfg::default(), Some(lb), crate::c06::name_handover_body(drain)), 4));
+    }
     for exit in [Exit::Stop, Exit::FailedStart] {
         units.push(Unit::explore_split(Job::new(format!("live-linked/{exit:?}"), live_cfg.clone(), Some(lb), live_body_x(exit, true)), 8));
     }
